@@ -909,7 +909,7 @@ def _split_sweeps(
     label: str,
 ) -> List[DataSet]:
     data_sets: List[DataSet] = []
-    decreasing_f: bool = frequency[0] > frequency[1]
+    decreasing_f: bool = len(frequency) < 2 or frequency[0] > frequency[1]
 
     while frequency:
         i: int = 1
